@@ -223,7 +223,7 @@ for _cfg in _c3:
                 continue
             nm = f'{_cfg[0]}@{"x".join(map(str, _cfg[1]))}' + (',preload' if _pre else '') + (',irregular' if _irr else '')
             # the cropper (C10) and the re-blocker (C12) write one footer array per entry of stored_header_keys: they rely on this contract
-            _more = ['C10', 'C12'] if (_cfg is CFG_DEFAULT[3] and not _pre) else []
+            _more = ['C10', 'C12', 'C04'] if (_cfg is CFG_DEFAULT[3] and not _pre) else []   # C04: the template / stored keys every header read starts from
             fuc(RI + '__init__', props=['C02', 'C03', 'C07', 'C08' if _irr else 'C05', 'C15', 'C18'] + _more)(type('ReaderInit', (ReaderInit,), dict(cfg=_cfg, preload=_pre, irregular=_irr, variant=nm)))
 for _cfg in (ALL2[0], ALL2[2], [c_ for c_ in ALL2 if c_[1][1] == 16][0]):
     nm = f'{_cfg[0]}@{"x".join(map(str, _cfg[1]))},2d'
